@@ -82,3 +82,76 @@ package util
 //@   where rfound ==> rv == old(mval(l, k, rv))
 //@   ensures rerr == nil ==> r1 == nil && r0 == old(mhas(l, k)) && !mhas(l, k)
 //@   ensures forall(K(q), q != k ==> mhas(l, q) == old(mhas(l, q)) && mval(l, q, V) == old(mval(l, q, V)))
+
+// ---- LockedMap.Remove (interface contract, A9/A6): the callback decides ---------
+// nil: the entry (if any) is removed; any error (including ErrLockedSetIgnore):
+// the entry stays as it is
+//@ func (LockedMap).Remove
+//@   nobody
+//@   modifies mview(self)
+//@   calls f(rv, rfound) -> rerr
+//@   where rfound == old(mhas(self, key))
+//@   where rfound ==> rv == old(mval(self, key, rv))
+//@   ensures rerr == nil ==> r1 == nil && r0 == old(mhas(self, key)) && !mhas(self, key)
+//@   ensures rerr != nil ==> !r0 && mhas(self, key) == old(mhas(self, key)) && mval(self, key, rv) == old(mval(self, key, rv))
+//@   ensures forall(K(q), q != key ==> mhas(self, q) == old(mhas(self, q)) && mval(self, q, V) == old(mval(self, q, V)))
+
+// ---- C34: stopped timers stay stopped and do not affect their successors --------
+
+// cleaning up after a finished timer never removes another timer (e.g. one that
+// was registered under the same id meanwhile)
+//@ func (*SimpleTimers).removeTimerOf
+//@   prop C34
+//@   requires ts.timers != nil && tr != nil
+//@   requires forall(TimerID(q), mhas(ts.timers, q) ==> mval(ts.timers, q, *SimpleTimer) != nil && mval(ts.timers, q, *SimpleTimer).whenRemoved != nil)
+//@   modifies mview(ts.timers), *
+//@   ensures [only-itself] forall(TimerID(q), old(mhas(ts.timers, q)) && old(mval(ts.timers, q, *SimpleTimer)) != tr ==> mhas(ts.timers, q) && mval(ts.timers, q, *SimpleTimer) == old(mval(ts.timers, q, *SimpleTimer)))
+//@   ensures [removes-itself] old(mhas(ts.timers, tr.id)) && old(mval(ts.timers, tr.id, *SimpleTimer)) == tr ==> !mhas(ts.timers, tr.id)
+
+// the by-id removal is for explicit stop requests only: the scheduler must not
+// use it for a timer that finished (its id may belong to a successor by then)
+//@ func (*SimpleTimers).iterate
+//@   prop C34
+//@   requires ts.timers != nil
+//@   callsite removeTimer requires false
+
+// a timer whose context is cancelled (stopped) never runs its callback again
+//@ func (*SimpleTimer).run
+//@   prop C34
+//@   requires t.getCtx != nil && t.intervalFunc != nil && t.callback != nil && t.expiredLocked != nil
+//@   fnparam getCtx ensures r0 != nil
+//@   fnparam callback requires a0.Err() == nil
+
+// a job handed to a worker runs once, later, on some goroutine: from the
+// submitter's point of view under an arbitrary state (A7)
+//@ func (JobWorker).NewJob
+//@   nobody
+//@   modifies *
+//@   calls a0(jctx, jid) -> jerr
+
+// ---- BaseJobWorker (goroutines, semaphore, contexts: outside the verified subset;
+// trusted, A7): an accepted job runs once, later, under an arbitrary state
+//@ func NewBaseJobWorker
+//@   trusted
+//@   modifies *
+//@   ensures r1 == nil ==> r0 != nil
+//@ func NewErrCallbackJobWorker
+//@   trusted
+//@   modifies *
+//@   ensures r1 == nil ==> wk != nil
+//@ func (*BaseJobWorker).NewJob
+//@   trusted
+//@   modifies *
+//@   calls c(jctx, jid) -> jerr
+//@ func (*BaseJobWorker).Done
+//@   trusted
+//@ func (*BaseJobWorker).Wait
+//@   trusted
+//@   modifies *
+//@ func (*BaseJobWorker).LazyWait
+//@   trusted
+//@   modifies *
+//@ func (*BaseJobWorker).Close
+//@   trusted
+//@ func (*BaseJobWorker).Cancel
+//@   trusted
